@@ -114,6 +114,65 @@ def oracle(case, res, extra):
         res.samples.append({"qref": case.qref, "features": sorted(feats)})
 
 
+def reading_correspondence(ctx, seeds):
+    """Lean `denoteV` (value-level evaluator on the PREPROCESSED routine, the right-hand side of the C01 theorem) against the
+    independent declarative reading of the SOURCE document (harness.refsem) at exact rational points."""
+    from .. import model
+    from ..real import schema
+
+    reqs, metas = [], []
+    for seed in seeds:
+        spec = gen(seed, None)
+        case = pipeline.Case(seed, spec)
+        try:
+            sx = G.routine_sexp(schema(case.qref).program, case.tree_of)
+        except Exception:
+            continue
+        tops = refsem.top_level_inputs(spec)
+        rng = random.Random(seed * 3 + 1)
+        top = {n: Fraction(rng.randint(2, 9), rng.choice([1, 1, 2])) for n in tops}
+        pt = " ".join(f"({n} {v.numerator} {v.denominator})" for n, v in top.items())
+        reqs.append(f"denote 0 {sx} ({pt})")
+        metas.append((seed, spec, top, case.qref))
+    if not reqs:
+        return
+    resp = model.run_driver(reqs)
+    for (seed, spec, top, q), r in zip(metas, resp):
+        ctx.stats["reading_vs_denoteV_compared"] += 1
+        try:
+            nv = refsem.denote(spec, top)
+        except (refsem.Ill, E.Undefined, OverflowError, ZeroDivisionError):
+            continue
+        if refsem.collect(nv, "mismatch") or refsem.collect(nv, "o1"):
+            continue
+        if r[0] != "ok":
+            ctx.stats["denoteV_" + str(r[1] if len(r) > 1 else r[0])] += 1
+            continue
+
+        def walk_cmp(m, v, path):
+            _, name, ports, resources, children = m
+            for pn, val in ports:
+                if val != "_" and pn in v["ports"]:
+                    mv = Fraction(int(val[1]), int(val[2]))
+                    ctx.stats["reading_values_compared"] += 1
+                    if mv != v["ports"][pn]:
+                        ctx.disagreement("denoteV (Lean, preprocessed routine) vs declarative reading of the source (port)", {"qref": q, "point": top, "node": path, "port": pn}, mv, v["ports"][pn])
+                        return False
+            for rn, _ty, val in resources:
+                if val != "_" and v["resources"].get(rn) is not None:
+                    mv = Fraction(int(val[1]), int(val[2]))
+                    ctx.stats["reading_values_compared"] += 1
+                    if mv != v["resources"][rn]:
+                        ctx.disagreement("denoteV (Lean, preprocessed routine) vs declarative reading of the source (resource)", {"qref": q, "point": top, "node": path, "resource": rn}, mv, v["resources"][rn])
+                        return False
+            for ch in children:
+                if ch[1] in v["children"] and not walk_cmp(ch, v["children"][ch[1]], path + [ch[1]]):
+                    return False
+            return True
+
+        walk_cmp(r[1], nv, [])
+
+
 def run(ctx, widen=False):
     n = ctx.n(400, 12000) * (3 if widen else 1)
     ctx.rule = ("routine trees from harness.routinegen (depth<=3, fan-out<=3, random wiring DAG, links incl. deep, locals, "
@@ -122,6 +181,7 @@ def run(ctx, widen=False):
                 "whose compiled resources were compared with the bottom-up reading at 3 random points")
     base = ctx.seed * 1000003
     pipeline.run_stream(ctx, __name__, range(base, base + n))
+    reading_correspondence(ctx, range(base, base + ctx.n(200, 3000)))
 
 
 def replay(payload):
